@@ -16,7 +16,7 @@ def distinct(e):
 def run(ctx):
     T = ctx.thorough
     ctx.tlc_mc("Sys_Relay", "MC_Relay_big.cfg" if T else "MC_Relay.cfg", timeout=1500)
-    for m in ("LogBeforeWrite", "HonourVeto", "CloseConnOnVeto", "DrainOnEOF", "LateVetoCloses"):
+    for m in ("LogBeforeWrite", "HonourVeto", "CloseConnOnVeto", "DrainOnEOF", "LateVetoCloses", "PutbackFirst"):
         ctx.tlc_mc("Sys_Relay", "MC_Relay_mut%s.cfg" % m, expect_violation=True)
     scns = ctx.tlc_gen("Sys_Relay", "Gen_Relay.cfg", num=400 if T else 60, depth=80)
     ctx.write_scenarios("relay", scns)
